@@ -146,12 +146,12 @@ def sweep(kind, n, R, with_blank=False):
     b = fixed_base(kind, n)
     rngv = list(range(-R, R + 1))
     out = [f'W (slice {b} {a} {bb} {c})' for a in rngv for bb in rngv for c in rngv]
-    if with_blank:
+    if with_blank:      # all arities and `_`, through the slice(…) / reverse(…) macros
         av = ['_'] + [str(x) for x in rngv]
-        out += [f'W (slice {b} {a} {bb})' for a in av for bb in av]
-        out += [f'W (slice {b} {bb})' for bb in av] + [f'W (slice {b})', f'W (reverse {b})']
-        out += [f'W (slice {b} _ _ {c})' for c in av] + [f'W (slice {b} {a} _ {c})' for a in rngv for c in (-2, -1, 1, 2)]
-        out += [f'W (slice {b} _ {bb} {c})' for bb in rngv for c in (-2, -1, 1, 2)]
+        out += [f'V (slice {b} {a} {bb})' for a in av for bb in av]
+        out += [f'V (slice {b} {bb})' for bb in av] + [f'V (slice {b})', f'V (reverse {b})', f'W (reverse {b})']
+        out += [f'V (slice {b} _ _ {c})' for c in av] + [f'V (slice {b} {a} _ {c})' for a in rngv for c in (-2, -1, 1, 2)]
+        out += [f'V (slice {b} _ {bb} {c})' for bb in rngv for c in (-2, -1, 1, 2)]
     return out
 
 
@@ -159,12 +159,46 @@ class C11(Spec):
     id = 'C11'; engine = 'iter'; harness = 'h_iter'; driver = 'drv_iter'
     generators = ()
     harness_timeout = 600
-    technique = 'Lean 4 proofs about an executable state-machine model of the iteration protocol; differential check of the model against the real library; definition-based oracle in C'
-    level_text = 'see lean/CelloProofs/Props/C11.lean'
-    level_note = ''
-    rule = ''
-    trusted_base = ()
-    assumptions = ()
+    technique = ('Lean 4 proofs (induction over walks, lists, trees, Int arithmetic) about an executable state-machine model of the '
+                 'iteration protocol that mirrors every Iter instance of the sources; differential check of that model against the real '
+                 'library (exhaustive Range and Slice parameter cubes, every container at every small length, random compositions); '
+                 'definition-based oracle in C on the same inputs')
+    level_text = ('Theorems (Props/C11.lean, no bound on sizes or nesting): LawfulAs — foreach yields exactly the defined sequence and then '
+                  'Terminal, the backward walk its reverse, len its length, get(i) its i-th element — for Array, List, Table (every pattern of '
+                  'holes), Tree (every shape, through child/parent pointers), Tuple without a repeated object, Range for ALL (start, stop, step) '
+                  'incl. step 0, negative steps, empty ranges; closed under Filter, Map, Zip (forward/len/get for inputs of any lengths, '
+                  'backward for equal lengths) and enumerate, hence (C11_compositions_lawful, by induction over the expression language that '
+                  'harness and driver interpret) for every composition of views to any nesting depth; Slice: len/get for all parameters, both '
+                  'walks inside the characterised parameter regions SliceRegionFwd/Bwd (C11_slice_partial). The full statements for Slice, '
+                  'Zip backward and Tuple are refuted on concrete witnesses (known findings F11, F12, F13). The model is tied to the code on '
+                  'every run: all 19^3 Range and 9*19^3 Slice parameter triples over Array/Tuple/Range (and smaller cubes over List, Table, '
+                  'Tree, Zip, Map) produce the same items, end markers, len and get in C and in Lean.')
+    level_note = ('Trusted: Lean kernel; axioms propext/Quot.sound/Classical.choice; the hand-written model Cello/Iter.lean (validated by the '
+                  'harness/driver comparison, which is testing); harness/h_iter.c and lean/Driver/Iter.lean. Inside known-finding territory '
+                  '(Slice outside its region, backward Zip of unequal inputs, Tuple with a repeated object) the property is known to FAIL; '
+                  'there the check only verifies that the implementation still behaves as the model predicts. Where the model says the C code '
+                  'leaves the protocol (Terminal used as a cursor: `ub`) the implementation is executed in a forked worker and only the '
+                  'items before that point are compared. int64 wrap-around of Range values and pointer identity of Filter/Map callables are '
+                  'not modelled. Tree iterates in DESCENDING key order (Tree_Set keeps the greater key on the left); C11 does not fix an order.')
+    rule = ('op files of iterable expressions: (1) every container kind (Array, List, Tuple, white-box Table slot arrays with holes, white-box '
+            'Tree shapes, Tree built with set, Range) at every length 0..40 (80 thorough) and some large; (2) every Range (start, stop, step) '
+            'in [-9,9]^3 ([-20,20]^3 thorough), all constructor arities and `_`, plus random large ranges; (3) every Slice (start, stop, step) '
+            'in [-9,9]^3 over Array, Tuple and Range of every length 0..8 ([-12,12]^3 over 0..24 and [-20,20]^3 at six lengths, thorough), '
+            'smaller cubes over List, Table, Tree, Zip, Map, a strided Range; all arities/`_`/reverse through the stack macros; Slice_Arg '
+            'alone for n <= 12, args in [-15,15]; (4) Zip of 1-4 random inputs of equal and unequal lengths, enumerate of every kind; '
+            '(5) random compositions of views to depth 3 (4 thorough), half of them built with the stack macros: one family stays outside '
+            'known-finding territory, one is arbitrary. Each op is walked with foreach and backwards, len and get(0..len-1) are read; harness '
+            'and driver must print the same line; the C oracle compares with the definition. non-trivial = the forward walk yields at least '
+            '2 items or a walk does not end with Terminal (exception / worker crash / cap); distinct = distinct op text.')
+    trusted_base = ('lean/Cello/Iter.lean is a hand-written model of src/Iter.c and of the Iter/Len/Get instances of Array, List, Table, Tree, Tuple (no generated part)',
+                    'harness/h_iter.c + lean/Driver/Iter.lean + vlib/props/c11.py compare (correspondence is testing)',
+                    'the definition-based reference in harness/h_iter.c (ref_of) is the oracle of link (C)')
+    assumptions = ('element counts and Range values stay below 2^63 (sizes are Nat, int64_t is Int in the model)',
+                   'the container is not modified during a walk; one walk at a time per iterable object (Range, Map and Zip keep the cursor inside the object)',
+                   'the oracle treats as known (not as violations) deviations whose expression lies in known-finding territory: a Slice outside '
+                   'SliceRegionFwd/Bwd (F11), a backward walk that involves a Zip of inputs of unequal length (F12), a Tuple holding one object twice (F13); '
+                   'these inputs ARE generated, to check that the implementation still equals the model there',
+                   'Filter predicates and Map functions are pure and total (test callables: key mod m == r, x -> a*key+b)')
     def compare(self, case, c_out, m_out): return compare_outputs(c_out, m_out)
     def cases(self, rng, tier, boost=1):
         quick = tier == 'quick'
@@ -183,8 +217,9 @@ class C11(Spec):
         R = 9 if quick else 20
         rv = range(-R, R + 1)
         lines = [f'W (range {a} {b} {c})' for a in rv for b in rv for c in rv]
-        lines += ['W (range)'] + [f'W (range {b})' for b in rv] + [f'W (range {a} {b})' for a in ['_'] + list(rv) for b in rv]
-        lines += [f'W (range _ {b} {c})' for b in rv for c in ['_'] + list(rv)] + [f'W (range {a} {b} _)' for a in rv for b in rv]
+        lines += ['V (range)', 'W (range)'] + [f'V (range {b})' for b in rv] + [f'V (range {a} {b})' for a in ['_'] + list(rv) for b in rv]
+        lines += [f'V (range _ {b} {c})' for b in rv for c in ['_'] + list(rv)] + [f'V (range {a} {b} _)' for a in rv for b in rv]
+        lines += [f'V (range {a} {b} {c})' for a in (-7, 0, 3) for b in rv for c in rv]
         lines += [f'W (range {rng.randint(-10**6, 10**6)} {rng.randint(-10**6, 10**6)} {rng.choice([-1, 1]) * rng.randint(10**3, 10**6)})' for _ in range(300 * boost)]
         chunked('range', lines)
         # (3) Slice: every (start, stop, step) of the cube over every length, per underlying kind
@@ -209,21 +244,21 @@ class C11(Spec):
             k = rng.randint(1, 4); n = rng.randint(0, 12)
             eq = rng.random() < 0.5
             parts = [base(rng, n if eq else rng.randint(0, 12)) for _ in range(k)]
-            lines.append(f"W (zip {' '.join(parts)})")
+            lines.append(f"{rng.choice('WV')} (zip {' '.join(parts)})")
         for n in range(0, 20):
-            for kind in ('array', 'list', 'tuple', 'range', 'table', 'tree'): lines.append(f'W (enum {base(rng, n, (kind,))})')
+            for kind in ('array', 'list', 'tuple', 'range', 'table', 'tree'): lines.append(f"{'WV'[n % 2]} (enum {base(rng, n, (kind,))})")
         lines.append('W (zip)')
         chunked('zip', lines, 500)
         # (5) compositions of views up to depth 3 (4 in thorough): outside known-finding territory and arbitrary
         lines = []
         for _ in range((1500 if quick else 30000) * boost):
             d = rng.randint(1, 3 if quick else 4); n = rng.randint(0, 10)
-            lines.append('W ' + lawful_view(rng, d, n)[0])
+            lines.append(rng.choice('WV') + ' ' + lawful_view(rng, d, n)[0])
         chunked('lawful', lines, 500)
         lines = []
         for _ in range((1500 if quick else 30000) * boost):
             d = rng.randint(1, 3 if quick else 4); n = rng.randint(0, 9)
-            lines.append('W ' + any_view(rng, d, n)[0])
+            lines.append(rng.choice('WV') + ' ' + any_view(rng, d, n)[0])
         chunked('anyview', lines, 500)
         return cs
     def nontrivial_items(self, case, c_out, m_out):
@@ -247,7 +282,8 @@ class C11(Spec):
             if '=ub' in l: acc['model_says_ub'] = acc.get('model_says_ub', 0) + 1
         for op in case.lines:
             for h in ('slice', 'reverse', 'zip', 'enum', 'filter', 'map', 'range', 'array', 'list', 'tuple', 'table', 'tree', 'rtree'):
-                if op.startswith('W (' + h + ' ') or op == 'W (' + h + ')': acc['top_' + h] = acc.get('top_' + h, 0) + 1
+                if op[2:].startswith('(' + h + ' ') or op[2:] == '(' + h + ')': acc['top_' + h] = acc.get('top_' + h, 0) + 1
+            if op.startswith('V '): acc['built_with_stack_macros'] = acc.get('built_with_stack_macros', 0) + 1
         for l in core.lines_with('X ', c_out):
             sg = re.search(r'sig=(\S+)', l)
             if sg: acc['oracle_' + sg.group(1)] = acc.get('oracle_' + sg.group(1), 0) + 1
